@@ -34,6 +34,8 @@ EXT_SETS = [
     ("complexity-refuses", ["complexity:2"], {}),
     ("apq", ["apq"], {}),
     ("everything", ["introspection", "complexity:100000", "apq", "apollotracing", "ftv1"], FTV1),
+    # user code: a response extension encoding/json cannot marshal (NaN) - the transport must still end the request
+    ("unserializable-extension", ["unserializable"], {}),
 ]
 # queries over the positions where a list element can be null / fail without any field of it having run
 FAULT_QUERIES = [
